@@ -105,6 +105,77 @@ def cases(tier):
             yield (seed, first, 3, tier != 'quick')
     for zseed in ZERO_SEEDS:
         yield ('zero-rows', zseed, 3 if tier == 'quick' else 4)
+    for seed in seeds():
+        for chunk in range(DERIVE_CHUNKS):
+            yield ('derive-all', seed, chunk)
+
+
+DERIVE_CHUNKS = 4
+
+
+def run_derive_all(case, ctx):
+    '''EVERY operation of the public interface of a grow-only Frame (introspected, the C01 menu) as a derivation: whatever containers it returns
+    are untouched by later growth of the source, stay coherent, and growing a returned grow-only Frame leaves the source and its siblings untouched.'''
+    from mc.props import c01
+    _, seed, chunk = case
+    mk = seeds()[seed]
+    probe = mk()
+    ops, _ = c01.enumerate_ops(probe)
+    lab_src, lab_der = new_labels(seed)[0], new_labels(seed)[1]
+    for oi, (opname, fn) in enumerate(ops):
+        # (copy.copy is Python's shallow copy: an alias of the same blocks and columns by definition, not a derivation of the library)
+        if oi % DERIVE_CHUNKS != chunk or opname.startswith(('setattr', 'setitem', 'delattr', 'values-write')) or opname == 'copy':
+            continue
+        f = mk()
+        model = Model(f)
+        c01.ARG_ARRAYS.clear()
+        try:
+            r = c01.materialise(fn(f))
+        except Exception:
+            continue
+        arrs, conts = [], []
+        c01.collect_arrays(r, arrs, conts)
+        conts = [c for c in conts if c is not f and c is not f._columns and c is not f._index]      # the subject's own (live) axes are not derived containers
+        frames = [c for c in conts if isinstance(c, sf.Frame)][:12]
+        others = [c for c in conts if not isinstance(c, sf.Frame)][:12]
+        if not conts:
+            continue
+        ctx.transition()
+        ctx.state(('derive-all', seed, opname))
+        ctx.nontriv(('derive-all', seed, opname))
+        info = dict(seed=seed, derived_by=opname)
+        try:
+            snaps = [snap(c) for c in frames + others]
+            # 1. the source grows
+            f[lab_src] = np.array([7, 8, 9])
+            for c, s0 in zip(frames + others, snaps):
+                if snap(c) != s0:
+                    ctx.violation(f'derive-all|{opname.split("(")[0]}|result-changed-after-source-grew', **info, result=type(c).__name__)
+                    break
+            else:
+                for c in frames:
+                    if len(c.columns) != c._blocks.shape[1] or c.shape[1] != len(c.columns):
+                        ctx.violation(f'derive-all|{opname.split("(")[0]}|result-labels-and-data-out-of-step', **info, shape=c.shape, labels=len(c.columns))
+                        break
+            # 2. a returned grow-only Frame grows: the source (and its model) must not see it
+            model.labels.append(lab_src)
+            model.cols.append([7, 8, 9])
+            model.dtypes.append(None)
+            grown = 0
+            for c in frames:
+                if isinstance(c, sf.FrameGO) and c is not f and c.shape[0] == 3 and grown < 3:
+                    lab2 = lab_der if c.columns.depth == f.columns.depth else 'zz-der'
+                    try:
+                        c[lab2] = np.array([0, 0, 0])
+                        grown += 1
+                    except Exception:
+                        continue
+            before = ctx.violation_count
+            agree(ctx, f'derive-all|{opname.split("(")[0]}|source-after-result-grew', f, model, info)
+        except Exception as e:
+            ctx.violation(f'derive-all|{opname.split("(")[0]}|raises-{type(e).__name__}', **info, error=repr(e))
+    ctx.outcome('derive-all')
+    ctx.sample({'family': 'derive-all', 'seed': seed, 'operations': len(ops)}, limit=1)
 
 
 ZERO_SEEDS = {
@@ -277,6 +348,8 @@ def make_value(kind, n_new, existing_first, labels, row_count=3):
 def run_case(case, ctx):
     if case[0] == 'zero-rows':
         return run_zero_rows(case, ctx)
+    if case[0] == 'derive-all':
+        return run_derive_all(case, ctx)
     seed, first, depth, full = case
     evs = events(seed, full)
     mk = seeds()[seed]
